@@ -5,6 +5,8 @@ import statelib
 from framework import Unit
 from props.c02 import set_reg
 
+PROPS_FILES = ['C09', 'C09par', 'C09ext', 'C09dsp']
+
 IMPORTS = 'From Gen Require Import enums core exec.'
 SPEC_IMPORTS = 'From ArmV Require Import Spec.Pseudocode Spec.Arch Spec.MachineView Spec.Arith.'
 EDGE = [0, 1, 0x7F, 0x80, 0xFF, 0x7FFF, 0x8000, 0xFFFF, 0x10000, 0x7FFFFFFF, 0x80000000, 0xFFFFFFFF, 0x00010000, 0xFFFF0000, 0x40000000]
@@ -78,18 +80,30 @@ LANE = [0, 1, 0x7F, 0x80, 0xFF, 0x7FFF, 0x8000, 0xFFFF, 0x7F7F7F7F, 0x80808080, 
         0xFF00FF00, 0x0001FFFF, 0xFFFF0001, 0x7FFFFFFF, 0x80000000, 0x00010000]
 
 
+def par_classes():
+    out = []
+    for pf, sg, kind in PAR_KINDS:
+        for i, o in enumerate(PAR_OPS):
+            c = pf + o
+            out.append((c[0].upper() + c[1:], f'par {sg} {kind} {i}'))
+    return out
+
+
 def family_cases(rng, tier):
     """the rest of the family against the executable specifications of Spec/Arith2.v (no theorem)"""
+    return class_cases(rng, tier, [(c, c + '_sem') for c in FAMILY])
+
+
+def par_cases(rng, tier):
+    """the 36 parallel addition/subtraction classes (proved in Proofs/ParProofs.v) on concrete lanes"""
+    return class_cases(rng, tier, par_classes())
+
+
+def class_cases(rng, tier, classes):
     t = statelib.load_index(C.GEN)['tables']
     oc = t['opcode_classes']
     out = []
     per = 12 if tier == 'quick' else 600
-    classes = [(c, c + '_sem') for c in FAMILY]
-    for pf, sg, kind in PAR_KINDS:
-        for i, o in enumerate(PAR_OPS):
-            c = pf + o
-            c = c[0].upper() + c[1:]
-            classes.append((c, f'par {sg} {kind} {i}'))
     for cls, sem in classes:
         names = oc[cls]['fields'][1:]
         for _ in range(per):
@@ -146,9 +160,35 @@ def family_cases(rng, tier):
     return out
 
 
+ARITH2 = ['Mla', 'Mls', 'Smul', 'Umaal', 'Umull', 'Umlal', 'Smull', 'Smlal', 'Usad8', 'Qsub']
+EXT = ['Sxtb', 'Sxth', 'Uxtb', 'Uxth', 'Sxtb16', 'Uxtb16', 'Sxtab', 'Sxtah', 'Uxtab', 'Uxtah', 'Sxtab16', 'Uxtab16', 'Rev', 'Rev16',
+       'Revsh', 'Bfc', 'Sbfx', 'Usada8', 'Qdadd', 'Qdsub', 'Smmul', 'Smmla', 'Smmls']
+DSP = ['Smla', 'Smuad', 'Smusd', 'Smlad', 'Smlsd', 'Smlald', 'Smlsld', 'Smlalxy', 'Smulw', 'Smlaw', 'Udiv', 'Sdiv', 'Ssat', 'Usat',
+       'Ssat16', 'Usat16', 'Pkh', 'Rbit']
+assert sorted(ARITH2 + EXT + DSP) == sorted(FAMILY)
+
+
+def sem_cases(classes):
+    return lambda rng, tier: class_cases(rng, tier, [(c, c + '_sem') for c in classes])
+
+
+def arith_cases(rng, tier):
+    return cases(rng, tier) + sem_cases(ARITH2)(rng, tier)
+
+
+def need(c):
+    return 'opcodes.abstract_opcodes.%s.%s.execute' % (c.lower(), c)
+
+
 def units():
-    thms = ['C09_MUL', 'C09_QADD', 'C09_UBFX', 'C09_CLZ', 'C09_SEL', 'C09_BFI_actual', 'C09_BFI_refuted']
-    needs = ['opcodes.abstract_opcodes.%s.%s.execute' % (m, c) for (m, c) in
-             (('mul', 'Mul'), ('qadd', 'Qadd'), ('ubfx', 'Ubfx'), ('clz', 'Clz'), ('sel', 'Sel'), ('bfi', 'Bfi'))]
-    return [Unit('arith', thms, ['Proofs/ArithProofs.v'], needs, cases, IMPORTS, SPEC_IMPORTS),
-            Unit('family', [], [], [], family_cases, IMPORTS, SPEC_IMPORTS + '\nFrom ArmV Require Import Spec.Arith2.')]
+    thms = ['C09_MUL', 'C09_QADD', 'C09_UBFX', 'C09_CLZ', 'C09_SEL', 'C09_BFI_actual', 'C09_BFI_refuted', 'C09_MLA', 'C09_MLS',
+            'C09_SMULxy', 'C09_UMAAL', 'C09_UMULL', 'C09_UMLAL', 'C09_SMULL', 'C09_SMLAL', 'C09_USAD8', 'C09_QSUB']
+    needs = [need(c) for c in ['Mul', 'Qadd', 'Ubfx', 'Clz', 'Sel', 'Bfi'] + ARITH2]
+    par = par_classes()
+    a2 = SPEC_IMPORTS + '\nFrom ArmV Require Import Spec.Arith2.'
+    return [Unit('parallel', ['C09_' + c.upper() for c, _ in par], ['Proofs/ParProofs.v'], [need(c) for c, _ in par], par_cases, IMPORTS, a2),
+            Unit('arith', thms, ['Proofs/ArithProofs.v', 'Proofs/ArithProofs2.v'], needs, arith_cases, IMPORTS, a2),
+            Unit('extend', ['C09_' + c.upper() for c in EXT], ['Proofs/ExtProofs.v', 'Proofs/ExtProofs2.v'], [need(c) for c in EXT],
+                 sem_cases(EXT), IMPORTS, a2),
+            Unit('dsp', ['C09_' + c.upper() for c in DSP], ['Proofs/DspProofs.v', 'Proofs/SatProofs.v', 'Proofs/RbitProofs.v'],
+                 [need(c) for c in DSP], sem_cases(DSP), IMPORTS, a2)]
